@@ -173,6 +173,8 @@ let run (cmd : string) (a : v list) : string =
   | "chk_ascending", [s] -> pbool (Checkers.ascending_b (zlist s))
   | "chk_wf", [b] -> pbool (Checkers.wf_b (bins_in b))
   (* ---- bins-manager operation sequences (C16) ---- *)
+  | "numitems", [keep; k; i] ->
+      pres pnat (Binner.numitems (bool_ keep) (Binner.new_bins (nat_ k) : (coq_Z * coq_Z) Binner.bins) (nat_ i))
   | "heap_run", [ops] ->
       let ops = Stdlib.List.map op_of (list_ ops) in
       let st = ref BinnerHeap.empty_state in
